@@ -42,6 +42,7 @@ pub mod client {
 pub mod server {
     use anyhow::Result;
     use anyhow::anyhow;
+    use anyhow::bail;
     use futures::SinkExt;
     use futures::StreamExt;
     #[cfg(not(octo_squirrel_verif))]
@@ -52,6 +53,8 @@ pub mod server {
     use tokio_util::codec::FramedWrite;
 
     use crate::protocol::socks5::Socks5AuthMethod;
+    use crate::protocol::socks5::Socks5CommandStatus;
+    use crate::protocol::socks5::Socks5CommandType;
     use crate::protocol::socks5::codec::Socks5CommandRequestDecoder;
     use crate::protocol::socks5::codec::Socks5InitialRequestDecoder;
     use crate::protocol::socks5::codec::Socks5ServerEncoder;
@@ -67,6 +70,10 @@ pub mod server {
         let mut writer = FramedWrite::new(wh, Socks5ServerEncoder);
         writer.send(Box::new(Socks5InitialResponse::new(Socks5AuthMethod::NoAuth))).await?;
         let command_request = reader.next().await.ok_or_else(|| anyhow!("connection closed during handshake"))??;
+        if command_request.command_type != Socks5CommandType::Connect {
+            writer.send(Box::new(Socks5CommandResponse::new(Socks5CommandStatus::Failure, response.bnd_addr))).await?;
+            bail!("unsupported command type: {:?}", command_request.command_type);
+        }
         writer.send(Box::new(response)).await?;
         Ok(command_request)
     }
